@@ -164,7 +164,7 @@ func runCheck(cfg *checkCfg, tier string, seed uint64, runsOverride int, writeEv
 		n = runsOverride
 	}
 	agg := runPool(&poolOpts{bin: bin, cfg: cfg, engine: cfg.Engine, seed: seed, tier: tier, from: 0, to: n,
-		replayDir: replayDir, env: env, maxViol: 25})
+		replayDir: replayDir, env: env, maxViol: maxViolations()})
 
 	// 3. runs that killed or stalled their worker: reproduce alone, twice, in fresh processes
 	for _, s := range agg.suspects {
@@ -189,9 +189,24 @@ func runCheck(cfg *checkCfg, tier string, seed uint64, runsOverride int, writeEv
 				same++
 			}
 		}
-		if same == 2 {
+		switch {
+		case same == 2 && s.kind == "timeout" && cfg.RefOnHang:
+			// attribute the hang: does it persist with the objects under test left out?
+			// (a tenth of the backstop: the fresh-only execution must be an order of magnitude
+			// faster before the time is blamed on the reused objects)
+			if rr := replayFresh(bin, p, append(append([]string{}, env...), "VERIF_REFERENCE_ONLY=1"), timeout/10); rr.timed {
+				agg.counters["shared_hang_not_attributable_to_this_property"]++
+				fmt.Printf("note: run %d exceeds the %v backstop and still needs more than a tenth of it with the reused objects left out (slow or looping library code shared by fresh objects; not a statement about reuse), replay kept at %s\n", s.run, timeout, p)
+			} else {
+				agg.violations = append(agg.violations, violation{Run: s.run, Seed: rp.Seed, Class: "hang@reused-object-only", Detail: "the run completes when only fresh objects are used, and hangs with the reused objects", Replay: p})
+			}
+		case same == 2:
 			agg.violations = append(agg.violations, violation{Run: s.run, Seed: rp.Seed, Class: class, Detail: first, Replay: p})
-		} else {
+		case s.kind == "timeout":
+			// a slow run on a loaded machine: no verdict for this run, not an alarm and not a failure of the batch
+			agg.counters["slow_runs_over_backstop_once"]++
+			fmt.Printf("note: run %d exceeded the %v backstop once but completed on re-execution (%d/2 timeouts)\n", s.run, timeout, same)
+		default:
 			agg.errors = append(agg.errors, fmt.Sprintf("run %d %s once (%s) but not on re-execution (%d/2): not reproducible, no verdict", s.run, s.kind, class, same))
 		}
 	}
@@ -226,6 +241,9 @@ func runCheck(cfg *checkCfg, tier string, seed uint64, runsOverride int, writeEv
 		rr := replayFresh(bin, best.Replay, env, timeout)
 		if rr.err != nil {
 			infra("replaying %s: %v", best.Replay, rr.err)
+		}
+		if rr.class == "hang@run" && class == "hang@reused-object-only" {
+			rr.class = class
 		}
 		if rr.class != class {
 			agg.errors = append(agg.errors, fmt.Sprintf("violation %s of run %d does not reproduce in a fresh process (got %q): harness nondeterminism, replay kept at %s", class, best.Run, rr.class, best.Replay))
@@ -294,6 +312,8 @@ var expectedProbes = map[string][]string{
 	"indexsim": {"probe.entry_reused", "probe.entry_rescanned", "probe.entry_dropped", "probe.symlink", "probe.rename", "probe.crash_image_decoded_as_error",
 		"probe.crash_image_decoded_as_new", "probe.crash_image_decoded_as_old", "fault.crash_model_0", "fault.crash_model_1", "fault.crash_model_2", "fault.crash_model_3", "fault.crash_model_4",
 		"fault.cache_bytes_corrupted", "fault.write_eio", "fault.write_enospc", "fault.write_short", "fault.mtime_collision", "fault.enumerated_prefixes", "probe.half_copied_font"},
+	"faultdisk": {"fault.byte_trunc", "fault.byte_flip", "fault.byte_set16", "fault.byte_set32", "fault.byte_zero", "fault.byte_swap", "fault.io_eio", "fault.io_eof", "fault.io_short",
+		"outcome.open-error", "outcome.opened", "check.pristine_equivalence"},
 	"fontmapsim": {"probe.repeat_lookup_cache_enabled", "probe.lookup_after_other_lookups", "probe.cache_eviction", "probe.add_after_lookups", "probe.system_fonts_used",
 		"answered_by_step_1", "answered_by_step_2", "answered_by_step_3", "answered_by_step_4", "answered_by_step_5"},
 }
@@ -417,6 +437,13 @@ func runReplay(path string) int {
 	if rr.err != nil {
 		infra("%v", rr.err)
 	}
+	if rr.timed && cfg.RefOnHang {
+		if r2 := replayFresh(bin, path, append(engineEnv(cfg), "VERIF_REFERENCE_ONLY=1"), timeout/10); r2.timed {
+			fmt.Printf("replay of %s: exceeds the %v backstop, and still needs more than a tenth of it with the reused objects left out: shared slowness, no violation of %s\n", path, timeout, rp.Property)
+			return 0
+		}
+		rr.class, rr.detail = "hang@reused-object-only", "the run completes when only fresh objects are used, and hangs with the reused objects"
+	}
 	if rr.class == "" {
 		fmt.Printf("replay of %s: no violation (expected %s)\n", path, rp.Class)
 		return 0
@@ -427,4 +454,10 @@ func runReplay(path string) int {
 	}
 	fmt.Printf("VIOLATION property=%s replay=%s\n", rp.Property, path)
 	return 1
+}
+
+// maxViolations: the search stops early once this many violating runs were seen
+// (VERIF_MAX_VIOLATIONS overrides; used when surveying a tree with many defects).
+func maxViolations() int {
+	return int(envInt("VERIF_MAX_VIOLATIONS", 25))
 }
